@@ -144,8 +144,7 @@ class Union(BasicDomain):
         elif len(args) == 1:
             obj = args[0]
         else:
-            obj       = Basic.__new__(cls, *args)
-            obj.index = 0
+            obj = Basic.__new__(cls, *args)
         return obj
 
     @property
@@ -184,16 +183,9 @@ class Union(BasicDomain):
         return tuple(ls)
 
     def __iter__(self):
-        self.index = 0
-        return self
-
-    def __next__(self):
-        try:
-            result = self.args[self.index]
-        except IndexError:
-            raise StopIteration
-        self.index += 1
-        return result
+        # a fresh iterator per call: nested or interleaved loops over the same
+        # Union must not share a cursor
+        return iter(self.args)
 
     def _sympystr(self, printer):
         sstr = printer.doprint
